@@ -111,6 +111,17 @@ prop("C07", ["PepitVerif/Props/C07.lean", "PepitVerif/Math/AFunSpec.lean", "Pepi
      direct=[oracle("c07_fuzz", 300, 6000)],
      assumptions=["exact arithmetic: the rounding of remainder / weight is not modelled"])
 
+prop("C11", ["PepitVerif/Props/C11.lean"],
+     streams=[stream("collect+tee (Task call list of the real MosekWrapper on the stand-in vs model; dense data)", "collect", 150, 3000, env={"PEPV_TEE": "1", "STUBS": "1"}, offset=53)],
+     direct=[oracle("c11_backends", 16, 200, stubs=True)],
+     trusted=["stand-in mosek module (harness/stubs/mosek): records Task calls and solves the recorded task through cvxpy, reporting duals in MOSEK's documented convention for maximisation problems (transcribed from the manual); real MOSEK is absent"],
+     assumptions=["the semantics of MOSEK's Task API (appendsparsesymmat lower-triangle reading, bound keys, dual signs) are a transcription, not verified against real MOSEK"])
+
+prop("C14", ["PepitVerif/Props/C14.lean"],
+     streams=[stream("flow (call and data flow of _solve_with_wrapper under a scripted wrapper, all option combinations)", "flow", 200, 3000, script="corr_c14.py")],
+     direct=[oracle("c14_dimred", 14, 160)],
+     assumptions=["the solver returns an optimal point of the problem it is given (oracle contract); monitored numerically with CLARABEL"])
+
 prop("C12", ["PepitVerif/Props/C12.lean"],
      streams=[stream("collect in one interpreter history (every program starts with PEP(); the model starts fresh)", "collect", 150, 3000, offset=23),
               stream("cls in one interpreter history", "cls", 100, 2000, offset=29)],
